@@ -20,7 +20,7 @@ def one(args):
         mod, ctx = analyse(prop, "/repo", "quick", sources=src)
     except Exception as ex:
         return name, prop, "crash:" + type(ex).__name__
-    new = added(prop, ctx.results)            # what the change adds to the reports on the bare corpus snapshot
+    new = added(prop, ctx.results, f"/verif/seeded/{name}")            # what the change adds to the reports on the bare corpus snapshot
     if any(r.status == VIOLATION for r in new):
         return name, prop, "violation"
     if any(r.status == UNKNOWN for r in new):
